@@ -160,16 +160,37 @@ def h_thresholds(ctx, n, r0):
         ctx.claim('not_converged_before', ctx.gt(info['e'], e))
 
 
+class _OracleCalled(Exception):
+    pass
+
+
 def h_missing_criteria(ctx, n):
-    orc = Oracle(ctx, fresh=True, n=n)
+    """Every argument combination without a usable stop criterion is rejected
+    before the first evaluation (the oracle raises when called: an accepted
+    combination would otherwise run for ever)."""
+    calls = [0]
+
+    def orc(I):
+        calls[0] += 1
+        raise _OracleCalled()
     Y0 = simple_Y0(n, 1)
-    ctx.raises(ValueError, 'no_criterion_rejected', teneva.cross, orc, Y0)
-    ctx.raises(ValueError, 'e_vld_without_data_rejected', teneva.cross, orc, Y0, None, None, 2, 1.1, 1, 1, 1.05, 100, {}, None,
-               None, None, 0.1)
     I_vld = np.array([[0] * len(n)])
     y_vld = np.array([1.])
-    ctx.raises(ValueError, 'vld_data_without_threshold_rejected', lambda: teneva.cross(orc, Y0, I_vld=I_vld, y_vld=y_vld))
-    ctx.claim('zero_evaluations_before_rejection', orc.calls == 0)
+    cases = {
+        'no_criterion_rejected': {},
+        'e_vld_without_data_rejected': {'nswp': 2, 'e_vld': 0.1},
+        'e_vld_with_indices_only_rejected': {'nswp': 2, 'e_vld': 0.1, 'I_vld': I_vld},
+        'e_vld_with_values_only_rejected': {'m': 5, 'e_vld': 0.1, 'y_vld': y_vld},
+        'vld_data_without_threshold_rejected': {'I_vld': I_vld, 'y_vld': y_vld},
+        'vld_indices_only_rejected': {'I_vld': I_vld},
+        'vld_values_only_rejected': {'y_vld': y_vld},
+    }
+    for name, kw in cases.items():
+        try:
+            ctx.raises(ValueError, name, lambda: teneva.cross(orc, Y0, **kw))
+        except _OracleCalled:
+            ctx.claim(name, False)
+    ctx.claim('zero_evaluations_before_rejection', calls[0] == 0)
 
 
 def h_default_info(ctx, n, r0):
@@ -193,7 +214,8 @@ def instances(tier):
     out = []
     quick = tier == 'quick'
     G = {'generic_divisors': True}
-    cfg = [([2, 2], 1, (0, 0), 1), ([2, 2], 1, (1, 1), 1), ([2, 2, 2], 1, (0, 0), 1), ([2, 3], 2, (0, 0), 1)]
+    cfg = [([2, 2], 1, (0, 0), 1), ([2, 2], 1, (1, 1), 1), ([2, 2, 2], 1, (0, 0), 1), ([2, 3], 2, (0, 0), 1),
+           ([2, 2], 1, (0, 0), 0), ([2, 2], 1, (1, 1), 0)]        # nswp = 0: no sweep at all
     if not quick:
         cfg += [([2, 2], 1, (0, 1), 2), ([2, 2, 2], 1, (1, 1), 1), ([3, 3], 2, (0, 1), 1), ([2, 2, 2], 2, (0, 0), 2)]
     for n, r0, dr, nswp in cfg:
